@@ -1407,6 +1407,17 @@ theorem mem_lentIds {v : View} {x : Nat} : x ∈ lentIds v ↔ (holderOf v x).is
     | none => simp [hh] at h
     | some c => exact holderOf_lt hh
 
+theorem mem_openingIds {v : View} {x : Nat} : x ∈ openingIds v ↔ isOpening v x = true := by
+  unfold openingIds
+  rw [mem_ids]
+  constructor
+  · exact fun h => h.2
+  · intro h
+    refine ⟨?_, h⟩
+    by_contra hc
+    have : v.sinks[x]? = none := by simp; omega
+    simp [isOpening, this] at h
+
 theorem mem_aliveIds {v : View} {x : Nat} : x ∈ aliveIds v ↔ isAlive v x = true := by
   unfold aliveIds
   rw [mem_ids]
@@ -2159,6 +2170,9 @@ structure Coupled (s : St) (m : Mon) : Prop where
   tasks : m.tasks = s.tasks
   closed : m.closedSeen = false → s.everClosed = false
   evs : s.evs = []
+  /-- every connection the picture shows as being opened is one whose `Open()` the specification
+      knows to be pending -/
+  conn : ∀ x, isOpening s.base x = true → x ∈ m.connects
 
 structure StepOk (cfg : Cfg) (m : Mon) (s : St) (op : Op) (r : St) : Prop where
   minv : MInv cfg (isRun op) (!m.closedSeen) none r
@@ -2705,8 +2719,200 @@ theorem Verdict.all_ok (l : List Verdict) (h : ∀ v ∈ l, v = .ok) : Verdict.a
     simp only [Verdict.all]
     exact ih (fun v hv => h v (List.mem_cons_of_mem _ hv))
 
+/-! ## connects in flight: the picture of calls agrees with the environment -/
+
+theorem isOpening_eq (v : View) (sid : Nat) :
+    isOpening v sid = (openFlag v sid && (holderOf v sid).isSome) := by
+  simp only [isOpening, openFlag, holderOf]; cases v.sinks[sid]? <;> rfl
+
+theorem isBusy_eq (v : View) (sid : Nat) :
+    isBusy v sid = ((holderOf v sid).isSome && !openFlag v sid) := by
+  simp only [isBusy, openFlag, holderOf]; cases v.sinks[sid]? <;> rfl
+
+/-- only a `connecting` event makes a connection "being opened" -/
+theorem isOpening_apply {v : View} {ev : Ev} {x : Nat} (h : isOpening (v.apply ev) x = true) :
+    isOpening v x = true ∨ ∃ c, ev = .connecting x c := by
+  rw [isOpening_eq] at h ⊢
+  cases ev with
+  | created sid ok => rw [openFlag_created, holderOf_created] at h; exact Or.inl h
+  | closed sid => rw [openFlag_closed, holderOf_closed] at h; exact Or.inl h
+  | sent sid c =>
+    rw [openFlag_sent, holderOf_sent] at h
+    by_cases hx : x = sid
+    · simp [hx] at h
+    · left; simpa [hx] using h
+  | connecting sid c =>
+    by_cases hx : x = sid
+    · subst hx; exact Or.inr ⟨c, rfl⟩
+    · rw [openFlag_connecting, holderOf_connecting] at h; left; simpa [hx] using h
+  | queued c => exact Or.inl h
+  | rel sid =>
+    rw [openFlag_rel, holderOf_rel] at h
+    by_cases hx : x = sid
+    · simp [hx] at h
+    · left; simpa [hx] using h
+  | done c o => exact Or.inl h
+  | raised w => exact Or.inl h
+
+theorem isOpening_foldl {evs : List Ev} {v : View} {x : Nat}
+    (h : isOpening (evs.foldl View.apply v) x = true) :
+    isOpening v x = true ∨ ∃ c, Ev.connecting x c ∈ evs := by
+  induction evs generalizing v with
+  | nil => exact Or.inl h
+  | cons ev rest ih =>
+    rcases ih h with h1 | ⟨c, hc⟩
+    · rcases isOpening_apply h1 with h2 | ⟨c, rfl⟩
+      · exact Or.inl h2
+      · exact Or.inr ⟨c, by simp⟩
+    · exact Or.inr ⟨c, List.mem_cons_of_mem _ hc⟩
+
+theorem mem_foldl_addConn {evs : List Ev} {l : List Nat} {x : Nat} :
+    x ∈ evs.foldl addConn l ↔ x ∈ l ∨ ∃ c, Ev.connecting x c ∈ evs := by
+  induction evs generalizing l with
+  | nil => simp
+  | cons ev rest ih =>
+    rw [List.foldl_cons, ih]
+    cases ev <;> simp [addConn]
+    rename_i sid c
+    constructor
+    · rintro ((h | h) | ⟨c', h⟩)
+      · exact Or.inl h
+      · exact Or.inr ⟨c, Or.inl ⟨h, rfl⟩⟩
+      · exact Or.inr ⟨c', Or.inr h⟩
+    · rintro (h | ⟨c', (⟨h, _⟩ | h)⟩)
+      · exact Or.inl (Or.inl h)
+      · exact Or.inl (Or.inr h)
+      · exact Or.inr ⟨c', h⟩
+
+/-- what happens to sinks and calls before the pool's code runs does not touch who holds what -/
+theorem isOpening_preOp (v : View) (op : Op) (x : Nat) : isOpening (preOp v op) x = isOpening v x := by
+  cases op with
+  | die sid =>
+    rw [preOp_die_eq, isOpening_eq, isOpening_eq, openFlag_closed, holderOf_closed]
+  | opened sid ok =>
+    simp only [isOpening, preOp, List.getElem?_modify]
+    cases v.sinks[x]? with
+    | none => rfl
+    | some k => by_cases h1 : sid = x <;> by_cases h2 : k.opening <;> simp [h1, h2]
+  | _ => rfl
+
+/-- the end of a connect: the connection is no longer "being opened" — the blocked greenlet has
+    pushed the pool's frame and handed the request to it -/
+theorem opened_clears (cfg : Cfg) (s : St) (sid : Nat) (ok : Bool) :
+    isOpening (stepSt cfg s (.opened sid ok)).view sid = false := by
+  show isOpening (openedSt { s with base := preOp s.base (.opened sid ok) } sid).view sid = false
+  generalize ({ s with base := preOp s.base (.opened sid ok) } : St) = s'
+  unfold openedSt
+  cases hk : s'.view.sinks[sid]? with
+  | none => simp [isOpening, hk]
+  | some k =>
+    simp only
+    by_cases hop : k.opening = true
+    · rw [if_pos hop]
+      cases hl : k.lent with
+      | none => simp [isOpening, hk, hl]
+      | some c =>
+        simp only
+        rw [view_emit, isOpening_eq, openFlag_sent]; simp
+    · rw [if_neg hop]; simp [isOpening, hk, hop]
+
+/-- after one operation of the model, every connection still shown as being opened is in the
+    specification's list of pending connects -/
+theorem conn_step {cfg : Cfg} {conn : List Nat} {s : St} (op : Op)
+    (hconn : ∀ x, isOpening s.base x = true → x ∈ conn)
+    (hbase : (stepSt cfg s op).base = preOp s.base op) :
+    ∀ x, isOpening (stepSt cfg s op).view x = true → x ∈ connAfter conn op (stepSt cfg s op).evs := by
+  intro x hx
+  have hx0 := hx
+  unfold St.view at hx
+  rw [hbase] at hx
+  unfold connAfter
+  rw [mem_foldl_addConn]
+  rcases isOpening_foldl hx with h1 | h1
+  · left
+    rw [isOpening_preOp] at h1
+    have hm := hconn x h1
+    cases op with
+    | opened sid ok =>
+      have hne : x ≠ sid := by
+        intro he; subst he
+        rw [opened_clears] at hx0; cases hx0
+      simp [rmConn, List.mem_filter, hm, hne]
+    | _ => exact hm
+  · exact Or.inr h1
+
+theorem clLeak_ok {cfg : Cfg} {s : St} {conn : List Nat} (hi : Inv cfg none s)
+    (hconn : ∀ x, isOpening s.view x = true → x ∈ conn) : clLeak s.view conn (obsOf s) = .ok := by
+  unfold clLeak
+  have h1 : (openingIds s.view).filter (fun sid => !conn.contains sid) = [] := by
+    rw [List.filter_eq_nil_iff]
+    intro a ha
+    unfold openingIds at ha
+    rw [mem_ids] at ha
+    simp [hconn a ha.2]
+  have h2 : (aliveIds s.view).filter
+      (fun sid => !(isLent s.view sid || (obsOf s).cache.contains sid || (obsOf s).tasks.contains sid)) = [] := by
+    rw [List.filter_eq_nil_iff]
+    intro a ha
+    have hal := (mem_aliveIds (v := s.view)).1 ha
+    rcases hi.aliveHeld a hal with h | h
+    · rw [← isLent_eq] at h; simp [h]
+    · simp only [held, Option.toList, List.append_nil, List.mem_append] at h
+      rcases h with h | h <;> simp [obsOf, h]
+  rw [h1]; simp only; rw [h2]
+
+/-- the server's answer on a connection that a call holds (started, or zombie) begins with
+    `_Release` of that connection -/
+theorem answer_rel {cfg : Cfg} {s : St} {c sid : Nat} (hi : Inv cfg none s) (he : s.evs = [])
+    (hst : s.base.calls[c]? = some (.started sid) ∨ s.base.calls[c]? = some (.zombie sid)) :
+    ∃ tail, (stepSt cfg s (.respond c)).evs = .rel sid :: tail := by
+  have hv : s.view = s.base := view_of_nil he
+  have hm : MInv cfg false true none s := minv_start hi he
+  rcases hst with hst | hst
+  · have hst' : s.view.calls[c]? = some (.started sid) := by rw [hv]; exact hst
+    have hstat : s.stat c = some (.started sid) := hst'
+    have hstep : stepSt cfg s (.respond c) = (release cfg s sid).emit (.done c .reply) := by
+      show (match s.stat c with
+       | some (.started _) => drainCall cfg s c .reply
+       | some (.zombie sid) => release cfg s sid
+       | _ => s) = _
+      rw [hstat]; simp only [drainCall, hstat]
+    obtain ⟨_, _, ⟨tail, a3⟩, _⟩ := drain_started (cfg := cfg) .reply hm he hst'
+    exact ⟨tail, by rw [hstep]; exact a3⟩
+  · have hst' : s.view.calls[c]? = some (.zombie sid) := by rw [hv]; exact hst
+    have hstat : s.stat c = some (.zombie sid) := hst'
+    have hstep : stepSt cfg s (.respond c) = release cfg s sid := by
+      show (match s.stat c with
+       | some (.started _) => drainCall cfg s c .reply
+       | some (.zombie sid) => release cfg s sid
+       | _ => s) = _
+      rw [hstat]
+    have hl : holderOf s.view sid = some c := hi.startedLent sid c _ hst' rfl
+    obtain ⟨_, _, ⟨tail, a3⟩, _⟩ := release_lent (cfg := cfg) hm he hl
+    exact ⟨tail, by rw [hstep]; exact a3⟩
+
+theorem clAnswer_ok {cfg : Cfg} {s : St} (op : Op) (hi : Inv cfg none s) (he : s.evs = []) :
+    clAnswer (preOp s.base op) op (obsOf (stepSt cfg s op)) = .ok := by
+  cases op with
+  | respond c =>
+    show clAnswer s.base (.respond c) _ = .ok
+    unfold clAnswer
+    simp only
+    cases hst : s.base.calls[c]? with
+    | none => rfl
+    | some st =>
+      cases st with
+      | started sid =>
+        obtain ⟨tail, h⟩ := answer_rel (cfg := cfg) hi he (Or.inl hst)
+        simp [obsOf, h]
+      | zombie sid =>
+        obtain ⟨tail, h⟩ := answer_rel (cfg := cfg) hi he (Or.inr hst)
+        simp [obsOf, h]
+      | _ => rfl
+  | _ => rfl
+
 theorem coupled_init : Coupled St.init {} :=
-  ⟨rfl, rfl, rfl, fun _ => rfl, rfl⟩
+  ⟨rfl, rfl, rfl, fun _ => rfl, rfl, fun x h => by simp [isOpening, St.init] at h⟩
 
 /-- one operation of the model: the invariant is kept, the specification's monitor stays in
     step with the model, and every clause of the specification accepts the observation -/
@@ -2717,7 +2923,8 @@ theorem step_ok {cfg : Cfg} {m : Mon} {s : St} (op : Op) (hi : Inv cfg none s) (
   have h := stepSt_ok (cfg := cfg) op hi hc hop
   have hview : (obsOf (stepSt cfg s op)).evs.foldl View.apply (preOp m.view op) = (stepSt cfg s op).view := by
     unfold St.view; rw [hc.view, h.base]; rfl
-  refine ⟨inv_finish h.minv.inv, ⟨?_, rfl, rfl, ?_, rfl⟩, ?_⟩
+  have hconn := conn_step (cfg := cfg) op hc.conn h.base
+  refine ⟨inv_finish h.minv.inv, ⟨?_, rfl, rfl, ?_, rfl, hconn⟩, ?_⟩
   · show (obsOf (stepSt cfg s op)).evs.foldl View.apply (preOp m.view op) = (stepSt cfg s op).view
     exact hview
   · intro hcs
@@ -2742,12 +2949,14 @@ theorem step_ok {cfg : Cfg} {m : Mon} {s : St} (op : Op) (hi : Inv cfg none s) (
       apply Verdict.all_ok
       intro v hv
       simp only [List.mem_cons, List.mem_nil_iff, or_false] at hv
-      rcases hv with rfl | rfl | rfl | rfl | rfl | rfl | rfl | rfl
+      rcases hv with rfl | rfl | rfl | rfl | rfl | rfl | rfl | rfl | rfl | rfl
       · exact h.surplus
       · exact clQueueBound_ok h.minv.inv
       · rw [hc.view]; exact h.handoff
       · rw [hc.view]; exact h.close
       · exact clSize_ok h.minv.inv
+      · exact clLeak_ok h.minv.inv hconn
+      · rw [hc.view]; exact clAnswer_ok op hi hc.evs
       · exact clWork_ok h.minv.inv
       · exact clIdle_ok h.minv.inv
       · exact h.raise
@@ -2772,14 +2981,173 @@ theorem spec_trace {cfg : Cfg} : ∀ (ops : List Op) (s : St) (m : Mon), Inv cfg
     rw [Verdict.and_ok_iff]
     exact ⟨a3, b1⟩
 
+/-- the specification's monitor, run over the model's own history, stays coupled with the model -/
+theorem coupled_trace {cfg : Cfg} : ∀ (ops : List Op) (s : St) (m : Mon), Inv cfg none s → Coupled s m →
+    Coupled (runOps cfg s ops) (monRun m (comp.trace cfg s ops)) := by
+  intro ops
+  induction ops with
+  | nil => intro s m _ hc; exact hc
+  | cons op ops ih =>
+    intro s m hi hc
+    obtain ⟨a1, a2, _⟩ := step_ok (cfg := cfg) op hi hc rfl
+    exact ih _ _ a1 a2
+
+/-- the lent connections are the busy ones (request handed over, not yet released) and the ones
+    being opened -/
+theorem lentIds_split (v : View) :
+    (lentIds v).length = (busyIds v).length + (openingIds v).length := by
+  unfold lentIds busyIds openingIds
+  rw [List.length_eq_length_filter_add (isBusy v) (l := List.filter (isLent v) (List.range v.sinks.length)),
+    List.filter_filter, List.filter_filter]
+  have e1 : (List.range v.sinks.length).filter (fun a => isBusy v a && isLent v a) =
+      (List.range v.sinks.length).filter (isBusy v) := by
+    apply ids_congr; intro i _
+    simp only [isBusy, isLent]; cases v.sinks[i]? with
+    | none => rfl
+    | some k => rcases k with ⟨al, lent, opn⟩; cases lent <;> cases opn <;> rfl
+  have e2 : (List.range v.sinks.length).filter (fun a => (!isBusy v a) && isLent v a) =
+      (List.range v.sinks.length).filter (isOpening v) := by
+    apply ids_congr; intro i _
+    simp only [isBusy, isLent, isOpening]; cases v.sinks[i]? with
+    | none => rfl
+    | some k => rcases k with ⟨al, lent, opn⟩; cases lent <;> cases opn <;> rfl
+  rw [e1, e2]
+
+theorem mem_busyIds {v : View} {x : Nat} : x ∈ busyIds v ↔ isBusy v x = true := by
+  unfold busyIds
+  rw [mem_ids]
+  constructor
+  · exact fun h => h.2
+  · intro h
+    refine ⟨?_, h⟩
+    by_contra hc
+    have : v.sinks[x]? = none := by simp; omega
+    simp [isBusy, this] at h
+
+/-- a lent connection is busy or being opened -/
+theorem busy_or_opening {v : View} {x : Nat} (h : (holderOf v x).isSome = true) :
+    isBusy v x = true ∨ isOpening v x = true := by
+  rw [isBusy_eq, isOpening_eq, h]
+  cases openFlag v x <;> simp
+
+/-- every call complete: nothing is lent -/
+theorem lent_nil_of_allDone {cfg : Cfg} {s : St} {h : Option Nat} (hi : Inv cfg h s)
+    (hd : allDone s.view = true) : ∀ x, holderOf s.view x = none := by
+  intro x
+  cases hh : holderOf s.view x with
+  | none => rfl
+  | some c =>
+    exfalso
+    obtain ⟨st, h2, h4⟩ := hi.lentCall x c hh
+    have h3 := List.mem_of_getElem? h2
+    unfold allDone at hd
+    rw [List.all_eq_true] at hd
+    have := hd _ h3
+    have hst : st = .done := by simpa using this
+    subst hst
+    simp [CStat.holds] at h4
+
+/-- the end of a connect, seen from a state where `sid` is shown as being opened -/
+theorem opened_hands_over {cfg : Cfg} {s : St} {sid : Nat} {ok : Bool} (hi : Inv cfg none s) (he : s.evs = [])
+    (ho : sid ∈ openingIds s.base) :
+    ∃ c, (step cfg s (.opened sid ok)).2.evs = [.sent sid c] ∧
+      ((s.base.calls[c]? = some (.connecting sid) ∧
+        (step cfg s (.opened sid ok)).1.base.calls[c]? = some (.started sid)) ∨
+       (s.base.calls[c]? = some (.orphan sid) ∧
+        (step cfg s (.opened sid ok)).1.base.calls[c]? = some (.zombie sid))) ∧
+      sid ∉ openingIds (step cfg s (.opened sid ok)).1.base ∧
+      sid ∈ busyIds (step cfg s (.opened sid ok)).1.base ∧
+      (step cfg s (.opened sid ok)).1.size = s.size := by
+  have hv : s.view = s.base := view_of_nil he
+  have hop := mem_openingIds.1 ho
+  -- the same facts after `preOp`
+  let s' : St := { s with base := preOp s.base (.opened sid ok) }
+  have hv' : s'.view = preOp s.base (.opened sid ok) := view_of_nil (s := s') he
+  have hop' : isOpening s'.view sid = true := by rw [hv', isOpening_preOp]; exact hop
+  have hcalls : s'.view.calls = s.base.calls := by rw [hv']; rfl
+  have hstep : stepSt cfg s (.opened sid ok) = openedSt s' sid := rfl
+  cases hk : s'.view.sinks[sid]? with
+  | none => simp [isOpening, hk] at hop'
+  | some k =>
+    have hko : k.opening = true ∧ k.lent.isSome = true := by simpa [isOpening, hk] using hop'
+    cases hl : k.lent with
+    | none => rw [hl] at hko; simp at hko
+    | some c =>
+      have hres : openedSt s' sid = s'.emit (.sent sid c) := by
+        unfold openedSt; rw [hk]; simp only; rw [if_pos hko.1, hl]
+      have hflag : openFlag s.view sid = true := by
+        rw [hv]; rw [isOpening_eq] at hop; simp only [Bool.and_eq_true] at hop; exact hop.1
+      have hhold : holderOf s.view sid = some c := by
+        have h1 : holderOf s'.view sid = some c := by simp [holderOf, hk, hl]
+        rw [hv'] at h1
+        have h2 : holderOf (preOp s.base (.opened sid ok)) sid = holderOf s.base sid := by
+          simp only [holderOf, preOp, List.getElem?_modify]
+          cases s.base.sinks[sid]? with
+          | none => rfl
+          | some k' => by_cases h2 : k'.opening <;> simp [h2]
+        rw [hv, ← h2]; exact h1
+      have hconn := hi.openConn sid c hflag hhold
+      rw [hv] at hconn
+      refine ⟨c, ?_, ?_, ?_, ?_, ?_⟩
+      · show (stepSt cfg s (.opened sid ok)).evs = _
+        rw [hstep, hres, emit_evs]; show s.evs ++ _ = _; rw [he]; rfl
+      · have hafter : (step cfg s (.opened sid ok)).1.base.calls[c]? =
+            (s'.view.apply (.sent sid c)).calls[c]? := by
+          show (stepSt cfg s (.opened sid ok)).view.calls[c]? = _
+          rw [hstep, hres, view_emit]
+        have hclt : c < s.base.calls.length := by
+          by_contra h; simp at h; rcases hconn with h1 | h1 <;> simp [List.getElem?_eq_none h] at h1
+        rw [hafter, calls_sent, if_pos ⟨rfl, by rw [hcalls]; exact hclt⟩]
+        unfold sentStat
+        rw [hcalls]
+        rcases hconn with h1 | h1
+        · left; exact ⟨h1, by rw [h1]⟩
+        · right; exact ⟨h1, by rw [h1]⟩
+      · intro hm
+        have h1 := mem_openingIds.1 hm
+        have h2 := opened_clears cfg s sid ok
+        have : (step cfg s (.opened sid ok)).1.base = (stepSt cfg s (.opened sid ok)).view := rfl
+        rw [this, h2] at h1; cases h1
+      · apply mem_busyIds.2
+        show isBusy (stepSt cfg s (.opened sid ok)).view sid = true
+        rw [hstep, hres, view_emit, isBusy_eq, openFlag_sent, holderOf_sent]
+        have hlt : sid < s'.view.sinks.length := by
+          by_contra h; simp at h; simp [List.getElem?_eq_none h] at hk
+        simp [hlt]
+      · show (stepSt cfg s (.opened sid ok)).size = s.size
+        rw [hstep, hres]; rfl
+
+/-- the server's answer on a connection held by a zombie call -/
+theorem zombie_answer {cfg : Cfg} {s : St} {c sid : Nat} (hi : Inv cfg none s) (he : s.evs = [])
+    (hz : s.base.calls[c]? = some (.zombie sid)) :
+    (∃ tail, (step cfg s (.respond c)).2.evs = .rel sid :: tail) ∧
+    (step cfg s (.respond c)).1.base.calls[c]? = some .done := by
+  have hv : s.view = s.base := view_of_nil he
+  have hst : s.stat c = some (.zombie sid) := by show s.view.calls[c]? = _; rw [hv]; exact hz
+  have hstep : stepSt cfg s (.respond c) = release cfg s sid := by
+    show (match s.stat c with
+     | some (.started _) => drainCall cfg s c .reply
+     | some (.zombie sid) => release cfg s sid
+     | _ => s) = _
+    rw [hst]
+  have hm : MInv cfg false true none s := minv_start hi he
+  have hl : holderOf s.view sid = some c := hi.startedLent sid c _ hst rfl
+  obtain ⟨a1, a2, ⟨tail, a3⟩, a4, a5, a6, a7, a8⟩ := release_lent (cfg := cfg) hm he hl
+  refine ⟨⟨tail, by show (stepSt cfg s (.respond c)).evs = _; rw [hstep]; exact a3⟩, ?_⟩
+  show (stepSt cfg s (.respond c)).view.calls[c]? = _
+  rw [hstep, a7]
+  unfold relStat
+  have : s.view.calls[c]? = some (.zombie sid) := hst
+  rw [this]
+
 /-- the invariant needs no hypothesis on the operations -/
 theorem inv_step {cfg : Cfg} {s : St} (op : Op) (hi : Inv cfg none s) (he : s.evs = []) :
     Inv cfg none (step cfg s op).1 ∧ (step cfg s op).1.evs = [] := by
   refine ⟨?_, rfl⟩
   show Inv cfg none (finish (stepSt cfg s op))
   apply inv_finish
-  exact (stepSt_ok (m := ⟨s.base, s.pstate.code, s.tasks, true⟩) op hi
-    ⟨rfl, rfl, rfl, fun h => by simp at h, he⟩ rfl).minv.inv
+  exact (stepSt_ok (m := ⟨s.base, s.pstate.code, s.tasks, true, openingIds s.base⟩) op hi
+    ⟨rfl, rfl, rfl, fun h => by simp at h, he, fun x hx => mem_openingIds.2 hx⟩ rfl).minv.inv
 
 theorem inv_runOps {cfg : Cfg} (ops : List Op) : ∀ s : St, Inv cfg none s → s.evs = [] →
     Inv cfg none (runOps cfg s ops) ∧ (runOps cfg s ops).evs = [] := by
